@@ -554,6 +554,9 @@ func (sp *sourcePrinter) splitIntoRanges(prof *profile.Profile, addrMap map[uint
 		}
 	}
 	sort.Slice(addrs, func(i, j int) bool { return addrs[i] < addrs[j] })
+	// The unprocessed addresses are later added to per-line instruction
+	// lists in this order: do not leave them in map iteration order.
+	sort.Slice(unprocessed, func(i, j int) bool { return unprocessed[i] < unprocessed[j] })
 
 	const expand = 500 // How much to expand range to pick up nearby addresses.
 	var result []addressRange
